@@ -200,7 +200,7 @@ Definition late_direct_pc (p : pc) : bool :=
 Definition is_ClSet (p : pc) : bool := match p with ClSet => true | _ => false end.
 Definition is_ClWaitWatch (p : pc) : bool := match p with ClWaitWatch => true | _ => false end.
 Definition is_FinNil (p : pc) : bool := match p with Fin RetNil => true | _ => false end.
-Definition is_FinEarly (p : pc) : bool := match p with Fin RetEarly => true | _ => false end.
+Definition is_FinEarly (p : pc) : bool := match p with Fin RetEarly | ClEarlyUnlock => true | _ => false end.
 Definition is_close (c : call) : bool := match c with CClose => true | _ => false end.
 Definition is_direct_true (c : call) : bool := match c with CDirect true _ => true | _ => false end.
 Definition holds (m : option nat) (t : nat) : bool := match m with Some x => Nat.eqb x t | None => false end.
@@ -314,6 +314,10 @@ Ltac rw_atoms :=
 Ltac bsolve2 :=
   cbn_st; try reflexivity; try assumption; try congruence;
   batoms; cbn_st; use_impl; cbn_st; try reflexivity; try congruence;
+  repeat match goal with
+  | H : is_ClSet ?p = true |- _ =>
+    lazymatch goal with _ : in_cs p = true |- _ => fail | _ => pose proof (is_ClSet_cs p H) end
+  end;
   rw_atoms; cbn_st; use_impl; cbn_st; try reflexivity; try congruence;
   try (exfalso;
        repeat match goal with H : _ /\ _ |- _ => destruct H end;
@@ -337,12 +341,15 @@ Proof.
       pose proof (fun h1 h2 => C4 _ _ _ _ Hth Hx h1 h2) as U0
     end;
     try (pose proof (A1 _ _ Hth) as O1);
-    unfold tinv in *; norm_finish; cbn_st; rewrite ?Hpc in *; cbn_st;
+    unfold tinv, ginv in *; norm_finish; cbn_st; rewrite ?Hpc in *; cbn_st;
     try (destruct hit; cbn_st);
     try (destruct (t_call th) as [|[|] ?| |?] eqn:Hcall; cbn_st; try discriminate);
     try (destruct c as [|[|] ?| |?]; cbn_st);
     use_impl; cbn_st; try discriminate;
+    try (rewrite ?Hmu in *; cbn_st);
+    try (match goal with O : t_watcher ?th = _ -> false = true |- _ =>
+           destruct (t_watcher th) eqn:?; use_impl; congruence end);
     bsplit_hyps; bsplit_goal; try (rewrite Nat.eqb_refl); bsolve2.
   all: match goal with |- ?g => idtac "GOAL" g end.
-  Show.
+  Show. Show 2.
 Admitted.
